@@ -614,6 +614,8 @@ def r_attribute_kinds(r, prog):
 def run(ctx):
     prog = ctx.prog
     ctx.run_rule('C08.1', 'T6', 'schema <-> encoder/decoder layout agreement', r_schema_encoders, prog, ctx.repo)
+    from props import c19 as _c19
+    ctx.run_rule('C08.2d', 'T2', 'the arguments dictionary follows the request for every generator, with or without arguments (the stream is the complete generateCode call)', _c19.r_arguments_always_sent, prog)
     ctx.run_rule('C08.2a', 'T4', 'request framing', r_request_framing, prog, ctx.repo)
     ctx.run_rule('C08.2b', 'T13', 'conditions of the request assembly (precondition ledger)', r_request_conditions, prog)
     ctx.run_rule('C08.3a', 'T5', 'documentation: every part is converted; members are documented from their own tags', r_documentation, prog)
